@@ -413,6 +413,14 @@ impl<'a> NtpPacket<'a> {
                         let packet = construct_packet(invalid.remaining_bytes, invalid.efdata)
                             .map_err(ParsingError::generalize)?;
 
+                        // a packet of another draft is ignored, also when its NTS fields
+                        // cannot be decrypted (it must not be answered with a NAK)
+                        if packet.draft_id() != Some(v5::DRAFT_VERSION) {
+                            return Err(ParsingError::V5(
+                                v5::V5Error::InvalidDraftIdentification,
+                            ));
+                        }
+
                         Err(ParsingError::DecryptError(packet))
                     }
                 };
